@@ -88,6 +88,9 @@ type node interface {
 	// fillStatFrom returns a *MemInfo (implementation of fs.FileInfo) from a node named name.
 	fillStatFrom(name string) *MemInfo
 
+	// mayChown reports whether the user u may change the owner and the group of the node to uid and gid.
+	mayChown(uid, gid int, u avfs.UserReader) bool
+
 	// setMode sets the permissions of the node.
 	setMode(mode fs.FileMode, u avfs.UserReader) bool
 
